@@ -488,12 +488,18 @@ def run_bath(case):
         return (np.exp(-1j * w * t) - 1) / w
     w1, w2 = float(rng.uniform(0.5, 2.0)), float(rng.uniform(0.5, 2.0))
     t1, t2 = 0.3, 0.7
-    for dagg in ((1, 0), (0, 1), (1, 1), (0, 0)):
-        for (wa, wb) in ((w1, w1), (w1, w2)):
-            c = bd.correlation(wa, t1, wb, t2, dw=(dw, dw), dagg=dagg,
+    # the same object is asked several times for the same modes and times
+    # with other band widths (each answer belongs to ITS band widths)
+    dws = [(dw, dw), (2 * dw, 0.5 * dw), (0.3 * dw, 0.3 * dw)]
+    for dagg, (wa, wb), (dwa, dwb) in [
+            (dg, ww, dd) for dd in dws
+            for dg in ((1, 0), (0, 1), (1, 1), (0, 0))
+            for ww in ((w1, w1), (w1, w2))]:
+        if True:
+            c = bd.correlation(wa, t1, wb, t2, dw=(dwa, dwb), dagg=dagg,
                                interaction_picture=False, change_only=False,
                                progress_type="silent")
-            g1, g2 = np.sqrt(jf(wa)) * dw, np.sqrt(jf(wb)) * dw
+            g1, g2 = np.sqrt(jf(wa)) * dwa, np.sqrt(jf(wb)) * dwb
             a1, a2 = f(wa, t1), f(wb, t2)
             x2 = np.conj(a2) if dagg[0] else a2
             x1 = np.conj(a1) if dagg[1] else a1
@@ -509,13 +515,14 @@ def run_bath(case):
             if dev > tol:
                 violations.append({
                     "what": f"two-time bath correlation dagg={dagg} "
+                            f"dw=({dwa:.3g},{dwb:.3g}) "
                             f"w=({wa:.3g},{wb:.3g}) deviates from the "
                             f"displaced-oscillator form by {dev:.3e}",
                     "mechanism": "bath-correlation", "detail": {}})
     return {"violations": violations[:6],
             "cells": ["bath-observables"] + (["bath-observables:rotated"]
                                              if i % 2 else []),
-            "monitors": {"entries_compared": 10}, "nontrivial": True,
+            "monitors": {"entries_compared": 26}, "nontrivial": True,
             "signature": f"bath-{i}", "maxratio": worst, "obs": {},
             "sample": gen.nice({"kind": "bath", "sd": p, "d": d})}
 
